@@ -591,6 +591,10 @@ func (e *engine) eval() error {
 		if err := e.mergeDelta(); err != nil {
 			return err
 		}
+		// Facts derived in the incremental rounds of this stratum. With a merge predicate a derived
+		// fact can be dropped in favour of the existing one, so the store need not grow although
+		// every round derives new facts; the created-fact limit applies to what is derived.
+		createdInRounds := 0
 		for {
 			newDeltaStore := factstore.NewMultiIndexedArrayInMemoryStore()
 			var newTemporalDeltaStore factstore.TemporalFactStore
@@ -625,7 +629,13 @@ func (e *engine) eval() error {
 						}
 					} else {
 						if !e.store.Contains(tf.Atom) && !e.deltaStore.Contains(tf.Atom) {
-							incrementalFactAdded = newDeltaStore.Add(tf.Atom) || incrementalFactAdded
+							if newDeltaStore.Add(tf.Atom) {
+								incrementalFactAdded = true
+								createdInRounds++
+								if e.options.createdFactLimit > 0 && createdInRounds > e.options.createdFactLimit {
+									return fmt.Errorf("fact size limit reached evaluating %q %d > %d", deltaRule.String(), createdInRounds, e.options.createdFactLimit)
+								}
+							}
 						}
 					}
 					if e.options.createdFactLimit > 0 && newDeltaStore.EstimateFactCount() > e.options.createdFactLimit {
